@@ -145,6 +145,35 @@ type client struct {
 	closed  bool
 	late    []*reply
 	yield   func()
+	gate    *sendGate
+}
+
+// sendGate makes the send function block on the first "ok" reply of one operation
+// (a slow client in the middle of a query's result stream) until it is released.
+type sendGate struct {
+	id      string
+	hit     bool // under client.mu: the first ok was recorded and the sender is held
+	release chan struct{}
+}
+
+// armGate installs a gate for the operation ID; the returned function opens it
+// (idempotent) and must always be called.
+func (c *client) armGate(id string) (g *sendGate, open func()) {
+	g = &sendGate{id: id, release: make(chan struct{})}
+	c.mu.Lock()
+	c.gate = g
+	c.mu.Unlock()
+	var once sync.Once
+	return g, func() {
+		once.Do(func() {
+			c.mu.Lock()
+			if c.gate == g {
+				c.gate = nil
+			}
+			c.mu.Unlock()
+			close(g.release)
+		})
+	}
 }
 
 func newClient(e *env, no int) *client {
@@ -177,10 +206,20 @@ func (c *client) onSend(data []byte) {
 	if r.OpIdx < 0 && len(c.orphans) < 50 {
 		c.orphans = append(c.orphans, &r)
 	}
+	var hold *sendGate
+	if g := c.gate; g != nil && !g.hit && r.Type == "ok" && r.OpID == g.id {
+		g.hit = true
+		hold = g
+	}
 	close(c.notify)
 	c.notify = make(chan struct{})
 	y := c.yield
 	c.mu.Unlock()
+	if hold != nil {
+		// the reply is recorded; the API's goroutine now waits like one that
+		// writes to a slow connection
+		<-hold.release
+	}
 	if y != nil {
 		y()
 	}
@@ -470,7 +509,7 @@ func handlerState(gs []gor) (parked int, active []gor) {
 		rel := false
 		first := ""
 		for _, f := range g.Frames {
-			if strings.Contains(f, apiRecv) || strings.Contains(f, ".queryExecutor") || strings.Contains(f, "main.(*seq).stepConcurrent.func") {
+			if strings.Contains(f, apiRecv) || strings.Contains(f, ".queryExecutor") || strings.Contains(f, "main.(*seq).stepConcurrent.func") || strings.Contains(f, "main.(*seq).stepGated.func") {
 				rel = true
 			}
 			if first == "" && !strings.HasPrefix(f, "runtime.") {
